@@ -346,7 +346,7 @@ impl Scala {
                                 w,
                                 "{}: {}{}Inner{}",
                                 content_key,
-                                e.shared().id.original,
+                                e.shared().id.renamed,
                                 shared.id.original,
                                 generics,
                             )?;
@@ -357,7 +357,7 @@ impl Scala {
                     writeln!(
                         w,
                         " extends {}{} {{",
-                        e.shared().id.original,
+                        e.shared().id.renamed,
                         (!e.shared().generic_types.is_empty())
                             .then(|| format!("[{}]", e.shared().generic_types.join(", ")))
                             .unwrap_or_default()
